@@ -37,7 +37,7 @@ claims = {
          "Not claimed: 'paste == inlining', 'unused macro contributes nothing' (two runs); termination of the macro expansion (the cycle check is a graph search that is not under a functional contract).",
          "contract-based deductive verification", "DESIGN.md 4.C07"),
  "C13": ("proof",
-         "Proof (binding): for every HTTP interaction the binding step BuildResourceMethodsPathVariables$1 lists exactly those {name} segments of its path for which a property is declared at that prefix, in path order, each with the declared schema object (cnt-indexed filter specification over the path parameters; newPathVariables keeps number and order); an interaction without declared parameters keeps none. BOUNDED stand-in (labelled in evidence.coverage.bounded): the real pathParameters/PathParameters are executed on every path over {/, {, }, a, b} up to length 7 (thorough: 9) and compared with the declarative split; no panic, empty/repeated names rejected.",
+         "Proof (binding): for every HTTP interaction the binding step BuildResourceMethodsPathVariables$1 lists exactly those {name} segments of its path for which a property is declared at that prefix, in path order, each with the declared schema object (cnt-indexed filter specification over the path parameters; newPathVariables keeps number and order); an interaction without declared parameters keeps none; the prefix table is insert-only and a prefix found in it is an error (a parameter declared twice for one prefix is rejected), unmatched declared properties leave the list in one place only; a user type named as the type of a Path property is accepted only if it is a scalar JSight type or a regex. BOUNDED stand-in (labelled in evidence.coverage.bounded): the real pathParameters/PathParameters are executed on every path over {/, {, }, a, b} up to length 7 (thorough: 9) and compared with the declarative split; no panic, empty/repeated names rejected.",
          "Assumed: pathParameters is a pure function of the path text (its split semantics is the bounded part); Interaction.Path() is a pure function of the interaction; collectUsedUserTypes only adds to the given set (trusted frame). Not claimed: the rejection rules of the first half of BuildResourceMethodsPathVariables (duplicate declaration, unused property) and the property names written into the shared schema nodes.",
          "contract-based deductive verification (loop invariant over a contract-local counting function) + bounded exhaustive execution for the path split", "DESIGN.md 4.C13"),
  "C15": ("proof",
